@@ -1,0 +1,461 @@
+// Verification hook (compiled only with -DCHIBICC_VERIF).
+//
+// `-verif-dump-ast <file>` writes everything codegen() reads -- the
+// object list, every function body, the types and the few global
+// options -- as S-expressions, right before codegen() runs. With the
+// guard off this translation unit is empty.
+//
+// Format: whitespace-separated atoms and parentheses.
+//   numbers     decimal (signed)
+//   strings     '<bytes>, every byte outside [A-Za-z0-9_.$@+-] written %XX
+//   NULL        ~
+//   byte blobs  #<hex digits>
+//   objects and types are referred to by small integer ids (-1 = NULL)
+//
+//   (chibicc-ast 1)
+//   (opts <fpic> <fcommon> <base_file>)
+//   (files (<file_no> <name>) ...)
+//   (prog <obj-id> ...)                           the list codegen() walks
+//   (obj <id> <name> <type> <align> <is_local> <is_function> <is_definition>
+//        <is_static> <is_tentative> <is_tls> <is_inline> <is_live> <is_root>
+//        <init_data blob or ~> (rels (<offset> <label> <addend>) ...)
+//        (params <obj-id> ...) (locals <obj-id> ...) <va_area> <alloca_bottom>
+//        <body node or ~>)
+//   (type <id> <KIND> <size> <align> <is_unsigned> <is_atomic> <base>
+//         <array_len> <return_ty> <is_variadic> <is_flexible> <is_packed>
+//         <vla_size obj> (params <type> ...) (members <member> ...) <vla_len node or ~>)
+//   member: (<idx> <name or ~> <type> <align> <offset> <is_bitfield> <bit_offset> <bit_width>)
+//   node:   (<KIND> <type> <file_no> <line_no> <kind-specific fields>)   see dump_node()
+#ifdef CHIBICC_VERIF
+#include "chibicc.h"
+
+static FILE *out;
+
+// Pointer -> id tables. Ids are handed out in order of first use.
+typedef struct {
+  void **keys;
+  int *vals;
+  int cap;
+  void **order;
+  int len;
+  int done; // entries [0, done) have been written
+} PtrTab;
+
+static PtrTab objs, types;
+
+static int ptr_lookup(PtrTab *t, void *p, bool *is_new) {
+  if (t->len * 2 >= t->cap) {
+    int ncap = t->cap ? t->cap * 2 : 1024;
+    void **nk = calloc(ncap, sizeof(void *));
+    int *nv = calloc(ncap, sizeof(int));
+    for (int i = 0; i < t->cap; i++) {
+      if (!t->keys[i])
+        continue;
+      unsigned long h = ((unsigned long)t->keys[i] >> 4) * 11400714819323198485ul;
+      int j = h % ncap;
+      while (nk[j])
+        j = (j + 1) % ncap;
+      nk[j] = t->keys[i];
+      nv[j] = t->vals[i];
+    }
+    t->keys = nk;
+    t->vals = nv;
+    t->cap = ncap;
+    t->order = realloc(t->order, sizeof(void *) * ncap);
+  }
+
+  unsigned long h = ((unsigned long)p >> 4) * 11400714819323198485ul;
+  int j = h % t->cap;
+  while (t->keys[j]) {
+    if (t->keys[j] == p) {
+      *is_new = false;
+      return t->vals[j];
+    }
+    j = (j + 1) % t->cap;
+  }
+  t->keys[j] = p;
+  t->vals[j] = t->len;
+  t->order[t->len] = p;
+  *is_new = true;
+  return t->len++;
+}
+
+static int obj_id(Obj *var) {
+  bool is_new;
+  return var ? ptr_lookup(&objs, var, &is_new) : -1;
+}
+
+static int type_id(Type *ty) {
+  bool is_new;
+  return ty ? ptr_lookup(&types, ty, &is_new) : -1;
+}
+
+static void put_str(char *s) {
+  if (!s) {
+    fprintf(out, " ~");
+    return;
+  }
+  fprintf(out, " '");
+  for (unsigned char *p = (unsigned char *)s; *p; p++) {
+    if (isalnum(*p) || strchr("_.$@+-", *p))
+      fputc(*p, out);
+    else
+      fprintf(out, "%%%02X", *p);
+  }
+}
+
+static void put_tok(Token *tok) {
+  if (!tok) {
+    fprintf(out, " ~");
+    return;
+  }
+  fprintf(out, " '");
+  for (int i = 0; i < tok->len; i++) {
+    unsigned char c = tok->loc[i];
+    if (isalnum(c) || strchr("_.$@+-", c))
+      fputc(c, out);
+    else
+      fprintf(out, "%%%02X", c);
+  }
+}
+
+static char *kind_name(NodeKind k) {
+  switch (k) {
+  case ND_NULL_EXPR: return "NULL_EXPR";
+  case ND_ADD: return "ADD";
+  case ND_SUB: return "SUB";
+  case ND_MUL: return "MUL";
+  case ND_DIV: return "DIV";
+  case ND_NEG: return "NEG";
+  case ND_MOD: return "MOD";
+  case ND_BITAND: return "BITAND";
+  case ND_BITOR: return "BITOR";
+  case ND_BITXOR: return "BITXOR";
+  case ND_SHL: return "SHL";
+  case ND_SHR: return "SHR";
+  case ND_EQ: return "EQ";
+  case ND_NE: return "NE";
+  case ND_LT: return "LT";
+  case ND_LE: return "LE";
+  case ND_ASSIGN: return "ASSIGN";
+  case ND_COND: return "COND";
+  case ND_COMMA: return "COMMA";
+  case ND_MEMBER: return "MEMBER";
+  case ND_ADDR: return "ADDR";
+  case ND_DEREF: return "DEREF";
+  case ND_NOT: return "NOT";
+  case ND_BITNOT: return "BITNOT";
+  case ND_LOGAND: return "LOGAND";
+  case ND_LOGOR: return "LOGOR";
+  case ND_RETURN: return "RETURN";
+  case ND_IF: return "IF";
+  case ND_FOR: return "FOR";
+  case ND_DO: return "DO";
+  case ND_SWITCH: return "SWITCH";
+  case ND_CASE: return "CASE";
+  case ND_BLOCK: return "BLOCK";
+  case ND_GOTO: return "GOTO";
+  case ND_GOTO_EXPR: return "GOTO_EXPR";
+  case ND_LABEL: return "LABEL";
+  case ND_LABEL_VAL: return "LABEL_VAL";
+  case ND_FUNCALL: return "FUNCALL";
+  case ND_EXPR_STMT: return "EXPR_STMT";
+  case ND_STMT_EXPR: return "STMT_EXPR";
+  case ND_VAR: return "VAR";
+  case ND_VLA_PTR: return "VLA_PTR";
+  case ND_NUM: return "NUM";
+  case ND_CAST: return "CAST";
+  case ND_MEMZERO: return "MEMZERO";
+  case ND_ASM: return "ASM";
+  case ND_CAS: return "CAS";
+  case ND_EXCH: return "EXCH";
+  }
+  return "UNKNOWN";
+}
+
+static char *type_kind_name(TypeKind k) {
+  switch (k) {
+  case TY_VOID: return "VOID";
+  case TY_BOOL: return "BOOL";
+  case TY_CHAR: return "CHAR";
+  case TY_SHORT: return "SHORT";
+  case TY_INT: return "INT";
+  case TY_LONG: return "LONG";
+  case TY_FLOAT: return "FLOAT";
+  case TY_DOUBLE: return "DOUBLE";
+  case TY_LDOUBLE: return "LDOUBLE";
+  case TY_ENUM: return "ENUM";
+  case TY_PTR: return "PTR";
+  case TY_FUNC: return "FUNC";
+  case TY_ARRAY: return "ARRAY";
+  case TY_VLA: return "VLA";
+  case TY_STRUCT: return "STRUCT";
+  case TY_UNION: return "UNION";
+  }
+  return "UNKNOWN";
+}
+
+static void dump_member(Member *mem) {
+  if (!mem) {
+    fprintf(out, " ~");
+    return;
+  }
+  fprintf(out, " (%d", mem->idx);
+  put_tok(mem->name);
+  fprintf(out, " %d %d %d %d %d %d)", type_id(mem->ty), mem->align, mem->offset,
+          mem->is_bitfield, mem->bit_offset, mem->bit_width);
+}
+
+static void dump_node(Node *node);
+
+static void dump_list(char *head, Node *node) {
+  fprintf(out, " (%s", head);
+  for (; node; node = node->next)
+    dump_node(node);
+  fprintf(out, ")");
+}
+
+// Bit patterns of a floating constant, computed exactly as gen_expr()
+// computes the immediates it prints.
+static void dump_fbits(Node *node) {
+  uint32_t f32 = 0;
+  uint64_t f64 = 0;
+  uint64_t f80[2] = {0, 0};
+
+  if (node->ty && node->ty->kind == TY_FLOAT) {
+    union { float f32; uint32_t u32; } u = { node->fval };
+    f32 = u.u32;
+  } else if (node->ty && node->ty->kind == TY_DOUBLE) {
+    union { double f64; uint64_t u64; } u = { node->fval };
+    f64 = u.u64;
+  } else if (node->ty && node->ty->kind == TY_LDOUBLE) {
+    union { long double f80; uint64_t u64[2]; } u;
+    memset(&u, 0, sizeof(u));
+    u.f80 = node->fval;
+    f80[0] = u.u64[0];
+    f80[1] = u.u64[1];
+  }
+  fprintf(out, " %u %lu %lu %lu", f32, f64, f80[0], f80[1]);
+}
+
+static void dump_node(Node *node) {
+  if (!node) {
+    fprintf(out, " ~");
+    return;
+  }
+
+  fprintf(out, "\n(%s %d %d %d", kind_name(node->kind), type_id(node->ty),
+          (node->tok && node->tok->file) ? node->tok->file->file_no : -1,
+          node->tok ? node->tok->line_no : -1);
+
+  switch (node->kind) {
+  case ND_NULL_EXPR:
+    break;
+  case ND_ADD:
+  case ND_SUB:
+  case ND_MUL:
+  case ND_DIV:
+  case ND_MOD:
+  case ND_BITAND:
+  case ND_BITOR:
+  case ND_BITXOR:
+  case ND_SHL:
+  case ND_SHR:
+  case ND_EQ:
+  case ND_NE:
+  case ND_LT:
+  case ND_LE:
+  case ND_ASSIGN:
+  case ND_COMMA:
+  case ND_LOGAND:
+  case ND_LOGOR:
+  case ND_EXCH:
+    dump_node(node->lhs);
+    dump_node(node->rhs);
+    break;
+  case ND_NEG:
+  case ND_ADDR:
+  case ND_DEREF:
+  case ND_NOT:
+  case ND_BITNOT:
+  case ND_CAST:
+  case ND_EXPR_STMT:
+  case ND_GOTO_EXPR:
+  case ND_RETURN:
+    dump_node(node->lhs);
+    break;
+  case ND_COND:
+  case ND_IF:
+    dump_node(node->cond);
+    dump_node(node->then);
+    dump_node(node->els);
+    break;
+  case ND_MEMBER:
+    dump_node(node->lhs);
+    dump_member(node->member);
+    break;
+  case ND_FOR:
+    dump_node(node->init);
+    dump_node(node->cond);
+    dump_node(node->inc);
+    dump_node(node->then);
+    put_str(node->brk_label);
+    put_str(node->cont_label);
+    break;
+  case ND_DO:
+    dump_node(node->then);
+    dump_node(node->cond);
+    put_str(node->brk_label);
+    put_str(node->cont_label);
+    break;
+  case ND_SWITCH:
+    dump_node(node->cond);
+    dump_node(node->then);
+    put_str(node->brk_label);
+    fprintf(out, " (cases");
+    for (Node *n = node->case_next; n; n = n->case_next) {
+      fprintf(out, " (%ld %ld", n->begin, n->end);
+      put_str(n->label);
+      fprintf(out, ")");
+    }
+    fprintf(out, ")");
+    if (node->default_case) {
+      fprintf(out, " (default");
+      put_str(node->default_case->label);
+      fprintf(out, ")");
+    } else {
+      fprintf(out, " ~");
+    }
+    break;
+  case ND_CASE:
+    fprintf(out, " %ld %ld", node->begin, node->end);
+    put_str(node->label);
+    dump_node(node->lhs);
+    break;
+  case ND_BLOCK:
+  case ND_STMT_EXPR:
+    dump_list("body", node->body);
+    break;
+  case ND_GOTO:
+  case ND_LABEL_VAL:
+    put_str(node->label);
+    put_str(node->unique_label);
+    break;
+  case ND_LABEL:
+    put_str(node->label);
+    put_str(node->unique_label);
+    dump_node(node->lhs);
+    break;
+  case ND_FUNCALL:
+    dump_node(node->lhs);
+    fprintf(out, " %d %d", type_id(node->func_ty), obj_id(node->ret_buffer));
+    dump_list("args", node->args);
+    break;
+  case ND_VAR:
+  case ND_VLA_PTR:
+  case ND_MEMZERO:
+    fprintf(out, " %d", obj_id(node->var));
+    break;
+  case ND_NUM:
+    fprintf(out, " %ld", node->val);
+    dump_fbits(node);
+    break;
+  case ND_ASM:
+    put_str(node->asm_str);
+    break;
+  case ND_CAS:
+    dump_node(node->cas_addr);
+    dump_node(node->cas_old);
+    dump_node(node->cas_new);
+    break;
+  }
+
+  fprintf(out, ")");
+}
+
+static void dump_obj(Obj *var) {
+  fprintf(out, "\n(obj %d", obj_id(var));
+  put_str(var->name);
+  fprintf(out, " %d %d %d %d %d %d %d %d %d %d %d", type_id(var->ty), var->align,
+          var->is_local, var->is_function, var->is_definition, var->is_static,
+          var->is_tentative, var->is_tls, var->is_inline, var->is_live, var->is_root);
+
+  // emit_data() reads ty->size bytes of init_data.
+  if (var->init_data && !var->is_function && !var->is_local && var->ty) {
+    fprintf(out, " #");
+    for (int i = 0; i < var->ty->size; i++)
+      fprintf(out, "%02x", (unsigned char)var->init_data[i]);
+  } else {
+    fprintf(out, " ~");
+  }
+
+  fprintf(out, " (rels");
+  for (Relocation *rel = var->rel; rel; rel = rel->next) {
+    fprintf(out, " (%d", rel->offset);
+    put_str(rel->label ? *rel->label : NULL);
+    fprintf(out, " %ld)", rel->addend);
+  }
+  fprintf(out, ")");
+
+  fprintf(out, " (params");
+  for (Obj *v = var->params; v; v = v->next)
+    fprintf(out, " %d", obj_id(v));
+  fprintf(out, ") (locals");
+  for (Obj *v = var->locals; v; v = v->next)
+    fprintf(out, " %d", obj_id(v));
+  fprintf(out, ") %d %d", obj_id(var->va_area), obj_id(var->alloca_bottom));
+
+  dump_node(var->body);
+  fprintf(out, ")");
+}
+
+static void dump_type(Type *ty) {
+  fprintf(out, "\n(type %d %s %d %d %d %d %d %d %d %d %d %d %d", type_id(ty),
+          type_kind_name(ty->kind), ty->size, ty->align, ty->is_unsigned,
+          ty->is_atomic, type_id(ty->base), ty->array_len, type_id(ty->return_ty),
+          ty->is_variadic, ty->is_flexible, ty->is_packed, obj_id(ty->vla_size));
+
+  fprintf(out, " (params");
+  if (ty->kind == TY_FUNC)
+    for (Type *t = ty->params; t; t = t->next)
+      fprintf(out, " %d", type_id(t));
+  fprintf(out, ") (members");
+  if (ty->kind == TY_STRUCT || ty->kind == TY_UNION)
+    for (Member *mem = ty->members; mem; mem = mem->next)
+      dump_member(mem);
+  fprintf(out, ")");
+
+  dump_node(ty->kind == TY_VLA ? ty->vla_len : NULL);
+  fprintf(out, ")");
+}
+
+void verif_dump_ast(Obj *prog, FILE *fp) {
+  out = fp;
+  fprintf(out, "(chibicc-ast 1)\n(opts %d %d", opt_fpic, opt_fcommon);
+  put_str(base_file);
+  fprintf(out, ")\n(files");
+
+  File **files = get_input_files();
+  for (int i = 0; files[i]; i++) {
+    fprintf(out, " (%d", files[i]->file_no);
+    put_str(files[i]->name);
+    fprintf(out, ")");
+  }
+
+  fprintf(out, ")\n(prog");
+  for (Obj *var = prog; var; var = var->next)
+    fprintf(out, " %d", obj_id(var));
+  fprintf(out, ")");
+
+  // Objects and types reachable from the ones written so far get their
+  // ids while those are written; keep going until nothing is pending.
+  while (objs.done < objs.len || types.done < types.len) {
+    while (objs.done < objs.len)
+      dump_obj(objs.order[objs.done++]);
+    while (types.done < types.len)
+      dump_type(types.order[types.done++]);
+  }
+
+  fprintf(out, "\n(end)\n");
+}
+#endif
